@@ -1,30 +1,163 @@
 mod big;
+mod gen;
+mod mon;
 mod ops;
+mod plan;
 mod rng;
 mod world;
 
-use world::*;
+use ops::*;
+use rng::Rng;
+use serde_json::{json, Value};
+use std::collections::BTreeMap;
+use std::panic::{catch_unwind, AssertUnwindSafe};
+use std::time::Instant;
+
+pub struct Args {
+    pub cmd: String,
+    pub prop: String,
+    pub tier: String,
+    pub seed: u64,
+    pub shard: u64,
+    pub nshards: u64,
+    pub out: String,
+    pub file: String,
+    pub budget: Option<u64>,
+}
+
+fn parse_args() -> Args {
+    let v: Vec<String> = std::env::args().collect();
+    let mut a = Args {
+        cmd: v.get(1).cloned().unwrap_or_default(),
+        prop: "C01".into(),
+        tier: "quick".into(),
+        seed: 1,
+        shard: 0,
+        nshards: 1,
+        out: String::new(),
+        file: String::new(),
+        budget: None,
+    };
+    let mut i = 2;
+    while i + 1 < v.len() + 1 {
+        let k = match v.get(i) {
+            Some(k) => k.as_str(),
+            None => break,
+        };
+        let val = v.get(i + 1).cloned().unwrap_or_default();
+        match k {
+            "--prop" => a.prop = val,
+            "--tier" => a.tier = val,
+            "--seed" => a.seed = val.parse().unwrap_or(1),
+            "--shard" => a.shard = val.parse().unwrap_or(0),
+            "--nshards" => a.nshards = val.parse().unwrap_or(1),
+            "--out" => a.out = val,
+            "--file" => a.file = val,
+            "--budget" => a.budget = val.parse().ok(),
+            _ => {}
+        }
+        i += 2;
+    }
+    a
+}
+
+#[derive(Default)]
+pub struct RunStats {
+    pub histories: u64,
+    pub steps: u64,
+    pub failed_tx: u64,
+    pub panics: u64,
+    pub kinds: BTreeMap<String, (u64, u64)>,
+    pub configs: BTreeMap<String, u64>,
+    pub workloads: BTreeMap<String, u64>,
+    pub errs: BTreeMap<String, u64>,
+}
+
+impl RunStats {
+    pub fn absorb(&mut self, h: &History, workload: &str) {
+        self.histories += 1;
+        self.steps += h.steps;
+        self.failed_tx += h.failed_tx;
+        self.panics += h.panics;
+        for (k, (a, b)) in &h.kinds {
+            let e = self.kinds.entry(k.clone()).or_insert((0, 0));
+            e.0 += a;
+            e.1 += b;
+        }
+        for (k, n) in &h.errs {
+            *self.errs.entry(k.clone()).or_insert(0) += n;
+        }
+        let c = &h.w.cfg;
+        *self.configs.entry(format!("collateral={:?}", c.collateral)).or_insert(0) += 1;
+        *self.configs.entry(format!("feed={:?}", c.feed)).or_insert(0) += 1;
+        *self.configs.entry(format!("vamms={}", c.vamms.len())).or_insert(0) += 1;
+        *self.configs.entry(format!("partial_ppm={}", c.partial_ratio * 1_000_000 / c.d())).or_insert(0) += 1;
+        for v in &c.vamms {
+            *self.configs.entry(format!("fluct_ppm={}", v.fluct * 1_000_000 / c.d())).or_insert(0) += 1;
+            *self.configs.entry(format!("fees={}", if v.toll + v.spread == 0 { "none" } else if v.toll + v.spread < 10 { "rounds-to-zero" } else { "yes" })).or_insert(0) += 1;
+        }
+        *self.workloads.entry(workload.to_string()).or_insert(0) += 1;
+    }
+}
+
+fn write_summary(a: &Args, report: &Report, stats: &RunStats, wall: f64, extra: Value) {
+    let out = json!({
+        "prop": a.prop, "tier": a.tier, "seed": a.seed, "shard": a.shard, "nshards": a.nshards,
+        "histories": stats.histories, "steps": stats.steps, "failed_tx": stats.failed_tx, "panics_as_reverts": stats.panics,
+        "evaluations": report.evaluations,
+        "distinct": report.distinct.iter().collect::<Vec<_>>(),
+        "counters": report.counters,
+        "samples": report.samples,
+        "violations": report.violations,
+        "inconclusive": report.inconclusive,
+        "kinds": stats.kinds.iter().map(|(k, v)| (k.clone(), json!({"ok": v.0, "failed": v.1}))).collect::<BTreeMap<_, _>>(),
+        "configs": stats.configs,
+        "workloads": stats.workloads,
+        "errors": stats.errs,
+        "wall_s": wall,
+        "extra": extra,
+    });
+    let s = serde_json::to_string(&out).unwrap();
+    if a.out.is_empty() {
+        println!("{}", s);
+    } else {
+        std::fs::write(&a.out, s).expect("write summary");
+    }
+}
 
 fn main() {
-    let cfg = DeployCfg {
-        collateral: Collateral::Cw20 { decimals: 6 },
-        feed: FeedKind::Mock,
-        vamms: vec![VammCfg { quote_reserve: 1_000_000_000, base_reserve: 100_000_000, toll: 0, spread: 0, fluct: 0, funding_period: 86400, decimals: None, live: true }],
-        initial_ratio: 50_000,
-        maint_ratio: 50_000,
-        liq_fee: 50_000,
-        partial_ratio: 0,
-        trader_funds: 5_000_000_000,
-        insurance_funds: 5_000_000_000,
-        oracle_price: 10_000_000,
-        vamm_engine_override: None,
-    };
-    let mut w = World::deploy(&cfg);
-    let s = w.snap();
-    println!("{}", serde_json::to_string_pretty(&s).unwrap());
-    let v = w.vamms[0].to_string();
-    let e = w.engine.clone();
-    let o = w.exec("alice", &e, &margined_perp::margined_engine::ExecuteMsg::OpenPosition { vamm: v, side: margined_perp::margined_engine::Side::Buy, margin_amount: 60_000_000u128.into(), leverage: 10_000_000u128.into(), base_asset_limit: 0u128.into() }, 0, None);
-    println!("{:?}", o);
-    println!("{}", serde_json::to_string(&w.snap().pos).unwrap());
+    let a = parse_args();
+    // contract panics are reverted transactions; keep stderr quiet but remember the last message
+    std::panic::set_hook(Box::new(|_| {}));
+    let t0 = Instant::now();
+    match a.cmd.as_str() {
+        "run" => {
+            let mut report = Report::default();
+            let mut stats = RunStats::default();
+            let mut extra = json!({});
+            let res = catch_unwind(AssertUnwindSafe(|| plan::run(&a, &mut report, &mut stats, &mut extra)));
+            if let Err(p) = res {
+                let text = p.downcast_ref::<String>().cloned().or_else(|| p.downcast_ref::<&str>().map(|s| s.to_string())).unwrap_or_default();
+                report.inconclusive(format!("harness panic: {}", text));
+            }
+            write_summary(&a, &report, &stats, t0.elapsed().as_secs_f64(), extra);
+        }
+        "replay" => {
+            let mut report = Report::default();
+            let mut stats = RunStats::default();
+            let text = std::fs::read_to_string(&a.file).expect("replay file");
+            let v: Value = serde_json::from_str(&text).expect("replay json");
+            let res = catch_unwind(AssertUnwindSafe(|| plan::replay(&a, &v, &mut report, &mut stats)));
+            if let Err(p) = res {
+                let text = p.downcast_ref::<String>().cloned().unwrap_or_default();
+                report.inconclusive(format!("harness panic: {}", text));
+            }
+            write_summary(&a, &report, &stats, t0.elapsed().as_secs_f64(), json!({}));
+        }
+        _ => {
+            eprintln!("usage: perpmon run|replay --prop Cxx --tier quick|thorough --seed N --shard i --nshards n --out file");
+            std::process::exit(2);
+        }
+    }
+    let _ = Rng::new(0);
 }
